@@ -53,6 +53,11 @@ def probe(backend, feats, options):
         L.append('%top{'); L.append('#ifndef VERIF_TOP_TYPES'); L.append('#define VERIF_TOP_TYPES'); L.append('typedef int YYSTYPE;'); L.append('typedef struct YYLTYPE { int first_line, first_column, last_line, last_column; } YYLTYPE;'); L.append('#endif'); L.append('}')
     if any(o.startswith('yyclass=') for o in options):
         L.append('%{'); L.append('class VerifLexer : public yyFlexLexer { public: int yylex(); };'); L.append('%}')
+    if 'noyyread' in options and backend in ('nr', 'r'):
+        # the user supplies yyread() in the definitions section (manual, "The Generated Scanner")
+        L.append('%{'); L.append('#include <stdio.h>')
+        L.append('static int yyread(char *buf, size_t max_size%s) { int c = getchar(); (void) max_size; return (c == EOF) ? 0 : (buf[0] = (char) c, 1); }' % (', void *yyscanner' if backend == 'r' else ''))
+        L.append('%}')
     if any(o.startswith('extra-type=') for o in options):
         L.append('%top{'); L.append('struct verif_extra { int n; };'); L.append('}')
     if 'sc' in feats or 'stack' in feats or 'bol' in feats:
@@ -148,6 +153,8 @@ def core_variants():
     add('r_main', 'r', PLAIN, ['main'])
     add('c99_main', 'c99', PLAIN, ['main'])
     add('nr_read', 'nr', NOREJ, ['read'])
+    add('nr_noyyread', 'nr', NOREJ, ['noyyread'], note='D49')
+    add('r_noyyread', 'r', NOREJ, ['noyyread'], note='D49')
     add('r_read', 'r', NOREJ, ['read'])
     add('c99_read', 'c99', NOREJ, ['read'])
     add('nr_always', 'nr', NOREJ, ['always-interactive'])
